@@ -169,6 +169,7 @@ def run(H, tier, rng):
     check_scan(H, [[0, 0], [2, 0], [1, 0], [3, 0], [4, 0]])
 
 
-Harness("C18", "all x-sorted curves with y in {0..3}^n for n <= 6 (7 thorough; sampled at the largest n in quick) + random x-sorted integer curves for "
-        "the lower/upper chains; point sets of 3-5 grid points (general position and degenerate, shuffled), scaled general-position sets, "
-        "fully collinear sets for graham_scan; oracle: brute-force hull in exact arithmetic", "n <= 9 chains, n <= 12 scan").main(run, replay)
+if __name__ == "__main__":
+    Harness("C18", "all x-sorted curves with y in {0..3}^n for n <= 6 (7 thorough; sampled at the largest n in quick) + random x-sorted integer curves for "
+            "the lower/upper chains; point sets of 3-5 grid points (general position and degenerate, shuffled), scaled general-position sets, "
+            "fully collinear sets for graham_scan; oracle: brute-force hull in exact arithmetic", "n <= 9 chains, n <= 12 scan").main(run, replay)
